@@ -15,7 +15,7 @@ CHECKS = {
                 "step start are compared with a reference computed from the spec, for fresh detectors, detectors with planted leftovers and detectors "
                 "that already ran other exposures. Mutated (invalid) schedules must raise before any probe runs. Exploration.",
         "design_ref": "DESIGN.md section 3, C02",
-        "note": "Written values include non-finite content (nan / inf) for the float buckets. Trusted: probe reads through the detector's public properties. NaN schedules and zeros at later positions are outside both the accept and the reject set. A quarter of the cases run through the older pyxel.exposure_mode loop.",
+        "note": "Written values include non-finite content (nan / inf) for the float buckets. Trusted: probe reads through the detector's public properties. NaN schedules and zeros at later positions are outside both the accept and the reject set. A quarter of the cases run through the older pyxel.exposure_mode loop. Part 'readout_sweep': schedules produced by a dask sweep of observation.readout.times with generated start times. After a refused times / start_time setter a run must step through the schedule the Readout held before.",
     },
     "C03": {
         "technique": "property-based testing: generated writer-probe pipelines with per-step plans and dtypes; result slices, labels, dtypes, scene/data nodes and debug records compared with in-run snapshots; flat-vs-hierarchical and debug-on-vs-off differentials",
@@ -24,7 +24,7 @@ CHECKS = {
                 "labels/dtypes are checked, layouts and debug on/off must agree, and every debug record is checked for soundness and completeness "
                 "against before/after snapshots of each writer. Exploration.",
         "design_ref": "DESIGN.md section 3, C03",
-        "note": "Trusted: snapshot probes (public API reads). Known finding K4 (uint64 > 2^53) is excluded from the main generator and probed separately. Float buckets also carry nan / inf frames; a bucket may be updated in place by a second model of the same step.",
+        "note": "Trusted: snapshot probes (public API reads). Known finding K4 (uint64 > 2^53) is excluded from the main generator and probed separately. Float buckets also carry nan / inf frames; a bucket may be updated in place by a second model of the same step. Debug records are checked for soundness, completeness and minimality (a bucket neither the model nor the preceding reset touched must not be recorded; frames containing NaN excepted).",
     },
     "C15": {
         "technique": "property-based testing of the listed library models with generated frames/parameters against accounting oracles (exact identity, min, idempotence, kernel sum, conservation invariants), repeated over generated steps",
@@ -32,7 +32,7 @@ CHECKS = {
                 "simple_ipc (kernel sums to 1, centre weight, uniform frame, impulse response), cdm parallel/serial (finite, non-negative, no charge created, repeated) and both "
                 "persistence models (pixel + trapped conserved per pixel, trapped >= 0, 1..5 species, capacities, 1..4 steps with refills) are run on generated non-negative frames. Exploration.",
         "design_ref": "DESIGN.md section 3, C15",
-        "note": "Tolerance 1e-9 relative on conservation sums (fastmath kernels). CDM parameters strictly positive where the model divides.",
+        "note": "Tolerance 1e-9 relative on conservation sums (fastmath kernels). CDM parameters strictly positive where the model divides. CDM has a 'heavy_damage' regime (faint compact source far from the output node, about one trap per pixel and species, release within the read-out).",
     },
     "C16": {
         "technique": "property-based testing around code-transition points (+-1 ulp) with bounds / monotonicity / saturation oracles; exhaustive enumeration of every transition for 4..12 bits x 4 classic ranges; differential noisy-SAR(zero noise) vs SAR",
@@ -49,7 +49,7 @@ CHECKS = {
                 "final pixel frame must equal the single-readout frame, intermediate readouts must be proportional to elapsed time, destructive frames "
                 "proportional to their own duration, and scaling all intervals must scale all frames. Exploration.",
         "design_ref": "DESIGN.md section 3, C17",
-        "note": "Relative tolerance 1e-12 x readouts. Trusted: numpy for the comparison; the relation itself needs no reference implementation. All four detector types; random and evenly spaced partitions.",
+        "note": "Relative tolerance 1e-12 x readouts. Trusted: numpy for the comparison; the relation itself needs no reference implementation. All four detector types; random and evenly spaced partitions. load_image is drawn with and without convert_to_photons.",
     },
     "C13": {
         "technique": "model-based property testing of generated operation sequences (Hypothesis) against a reference container model",
@@ -73,7 +73,7 @@ CHECKS = {
                 "reads, removals and resets are applied to detector.charge and to an exact per-pixel accumulator; the reported array must equal the accumulator after every step, "
                 "outside clusters must be credited nowhere and must not crash or corrupt memory. Exploration.",
         "design_ref": "DESIGN.md section 3, C14",
-        "note": "Child processes run with NUMBA_BOUNDSCHECK=1 (sanitizer-style). Only non-negative charge is added. Cluster columns are float64 or object-typed (as pyxel's own charge_deposition hands them over; finding F33, fixed).",
+        "note": "Child processes run with NUMBA_BOUNDSCHECK=1 (sanitizer-style). Only non-negative charge is added. Cluster columns are float64 or object-typed (as pyxel's own charge_deposition hands them over; finding F33, fixed). Histories contain a 'restore' operation (the detector rebuilt through to_dict / from_dict).",
     },
     "C18": {
         "technique": "round-trip property-based testing (save -> load) with the harness's own field-by-field comparator over generated detectors and container subsets; in-pipeline differential for the load_detector model",
@@ -90,7 +90,7 @@ CHECKS = {
                 "Generated documents (4 detector types, exposure/observation, schedules in 12 renderings, numpy-expression parameter values, probe pipelines with arbitrary arguments, permuted keys) are loaded "
                 "and every attribute is compared with the document; running the loaded objects must equal running Python-built objects. All documents with 0 or >=2 modes/detectors must be refused.",
         "design_ref": "DESIGN.md section 3, C12",
-        "note": "Range table transcribed from docstrings and error messages. Calibration documents are exercised by C10/C11.",
+        "note": "Range table transcribed from docstrings and error messages. Calibration documents are exercised by C10/C11. A refused change through attribute, key or sweep must leave the long-lived object exactly as it was.",
     },
     "C08": {
         "technique": "property-based testing: keys enumerated from generated processors (valid) and derived by mutation (invalid); full-settings snapshot before/after each assignment; harness's own literal-denotation parser as reference; every entry point exercised for invalid keys",
@@ -98,7 +98,7 @@ CHECKS = {
                 "the snapshot of all settings must change in exactly that key to the value the text literally denotes, get/has must agree. Mutated keys must be refused by Processor.set, "
                 "sequential and dask observations (product/sequential), and run_mode overrides before any probe model runs and without inventing attributes; sweeping an argument of a disabled model must raise. Exploration.",
         "design_ref": "DESIGN.md section 3, C08",
-        "note": "Ambiguous textual spellings (quotes, blanks, hex, True/None) are not generated. Calibration entry point for invalid keys is exercised in C10. Part 'nested': keys inside mapping- / list-of-mappings-valued arguments over a generated history of set / replace / create_new_processor / deepcopy on a pool of processors (finding F35, fixed).",
+        "note": "Ambiguous textual spellings (quotes, blanks, hex, True/None) are not generated. Calibration entry point for invalid keys is exercised in C10. Part 'nested': keys inside mapping- / list-of-mappings-valued arguments over a generated history of set / replace / create_new_processor / deepcopy on a pool of processors (finding F35, fixed). The nested part also issues misspelt nested keys, which set / replace must refuse.",
     },
     "C05": {
         "technique": "property-based testing: generated parameter spaces (product / sequential / custom, scalar and vector parameters, colliding names, numpy expressions, disabled parameters) against itertools reference enumerators; echo probes encode received values so that label-based selection is checkable",
@@ -114,7 +114,7 @@ CHECKS = {
                 "run over a pipeline with a detector-memory probe, an in-place argument mutator and the library's simple_persistence. Every run's pixel/signal/image entry must equal the standalone exposure with "
                 "that run's values, failing runs must not affect their neighbours on the dask path, and the snapshot of detector, pipeline, readout and mode must be unchanged after the call, also when it raised. Exploration.",
         "design_ref": "DESIGN.md section 3, C06",
-        "note": "Part 'calibration': real calibration runs (sade/sga, 1..2 islands, 1..2 targets, 1..3 readouts) over the same state-keeping pipeline with a recording fitness function; sampled candidates and the champions' returned data must equal the standalone exposure with the values the probe received; caller's objects unchanged. K1 class excluded as in C05.",
+        "note": "Part 'calibration': real calibration runs (sade/sga, 1..2 islands, 1..2 targets, 1..3 readouts) over the same state-keeping pipeline with a recording fitness function; sampled candidates and the champions' returned data must equal the standalone exposure with the values the probe received; caller's objects unchanged. K1 class excluded as in C05. An ndarray-valued model argument that its model modifies in place is part of half of the pipelines (Python API only).",
     },
     "C09": {
         "level": "fault_enumeration",
@@ -148,7 +148,7 @@ CHECKS = {
                 "evaluation and valid ones accepted. In short real runs the reported champion fitness must be reproduced by re-simulating the reported parameters, /simulated and /full_size must be computable and equal "
                 "the re-simulation, and the champion fitness must not increase over evolutions. Exploration.",
         "design_ref": "DESIGN.md section 3, C11",
-        "note": "Tolerance 1e-9 relative. reduced chi-squared with fewer data points than free parameters is outside its domain (counted as excluded). Half of the run cases calibrate a stochastic pipeline under a declared pipeline_seed (one island; parallel islands race on the global generator = K2).",
+        "note": "Tolerance 1e-9 relative. reduced chi-squared with fewer data points than free parameters is outside its domain (counted as excluded). Half of the run cases calibrate a stochastic pipeline under a declared pipeline_seed (one island; parallel islands race on the global generator = K2). A third of the run cases rewrite the target / weight files and calibrate again in the same process.",
     },
     "C04": {
         "technique": "property-based testing: (a) seeding helper against a private RandomState and state identity, (b) introspection-discovered seeded models run twice from different generator states, (c) generated stochastic pipelines re-run from different prior states / process histories in every mode, (d) injectivity-based leak detector for unseeded random models",
@@ -156,7 +156,7 @@ CHECKS = {
                 "4 listed as skipped) must be reproducible and state-preserving; generated pipelines of the stochastic library models with a pipeline_seed must give bit-identical result trees in exposure, sequential and dask "
                 "observation and calibration from different prior states, after unseeded or failing runs, and restore the generator also when a model raises; unseeded random models must not re-seed the process. Exploration.",
         "design_ref": "DESIGN.md section 3, C04",
-        "note": "Dask paths on the synchronous scheduler (threaded race = C07's known finding K2). Every model with a seed argument has a recipe (17 models, 34 option variants incl. charge_deposition with tabulated spectra, cosmix, nghxrg), each option variant taking another random-number path. pulse_processing's minutes-long phase conversion is stubbed from outside.",
+        "note": "Dask paths on the synchronous scheduler (threaded race = C07's known finding K2). Every model with a seed argument has a recipe (17 models, 34 option variants incl. charge_deposition with tabulated spectra, cosmix, nghxrg), each option variant taking another random-number path. pulse_processing's minutes-long phase conversion is stubbed from outside. The ends of both seed ranges (pipeline_seed 0 / 2^32-1, pygmo_seed 0 / 1 / 100000) are enumerated for calibration.",
     },
     "C07": {
         "technique": "differential property-based testing: with_dask result under generated schedulers (synchronous, thread pools of 1/2/4/16, process pools of 2/4) with data-dependent delays vs the sequential result, compared label by label; harness-owned schedule (barrier) for the known seeding race; calibration outcome differential across schedulers and island-creation modes",
@@ -164,6 +164,6 @@ CHECKS = {
                 "outputs on or off: every bucket and every reported file must agree with the sequential result at the same label. Calibrations with fixed seeds (1..3 unconnected islands) must report identical champions under the "
                 "synchronous scheduler, thread pools of 4 and 16 and with serial island creation. Exploration: free-running pools are sampled, the oracle is schedule independent.",
         "design_ref": "DESIGN.md section 3, C07",
-        "note": "Known findings K1 (sequential mode, >=2 parameters) and K2 (seeded stochastic pipelines under threads; made deterministic with a barrier) are excluded from the generator and probed. Connected island topologies use pygmo's asynchronous migration and are not asserted.",
+        "note": "Known findings K1 (sequential mode, >=2 parameters) and K2 (seeded stochastic pipelines under threads; made deterministic with a barrier) are excluded from the generator and probed. Connected island topologies use pygmo's asynchronous migration and are not asserted. Part 'short_name_collisions' enumerates every declaration order of two parameters sharing a short name and a third one.",
     },
 }
